@@ -2,10 +2,11 @@
     ([NoPanicL4.LI]) along the updates of one message; [request_enabled], [on_retract_response],
     [task_running], [task_reject] return [Ok].
 
-    [task_running] for a task in state Retracting needs the extra hypothesis [RSN] (the worker
-    named by a Retracting state is not in multi-node mode): without it site 102 is reachable
-    (NoPanicU21.v). *)
-From HQ Require Import Base.Prelude Cluster.Types Cluster.Core Cluster.Reactor Cluster.Worker Cluster.Server Cluster.Sys Cluster.Monitors Cluster.RejHyp Cluster.ProofsJob Cluster.ProofsMore Cluster.ProofsTerminal Cluster.ProofsStep Cluster.ProofsFinal Cluster.BijBase Cluster.BijCore Cluster.BijHq Cluster.BijSt Cluster.BijReact Cluster.BijFinal Cluster.InvWBase Cluster.InvWView Cluster.InvWCore Cluster.InvWReact Cluster.InvWReact2 Cluster.InvWReact3 Cluster.InvWServer Cluster.InvWStep Cluster.InvQBase Cluster.InvQTake Cluster.InvQInv Cluster.InvQReact Cluster.InvQReact2 Cluster.InvQReact3 Cluster.InvDBase Cluster.InvDSpec Cluster.InvDRem Cluster.InvDReact Cluster.InvBundle Cluster.InvProcsDef Cluster.NoPanicC1 Cluster.NoPanicC2 Cluster.NoPanicC3 Cluster.NoPanicC4 Cluster.InvWX1 Cluster.InvWX2 Cluster.InvWX3 Cluster.NoPanicL0 Cluster.NoPanicL1 Cluster.NoPanicL2 Cluster.NoPanicL3 Cluster.NoPanicL4 Cluster.NoPanicU0 Cluster.NoPanicU1 Cluster.NoPanicU6 Cluster.NoPanicU8 Cluster.NoPanicU9 Cluster.NoPanicU10 Cluster.NoPanicU11 Cluster.NoPanicU12 Cluster.NoPanicU13.
+    [task_running] for a task in state Retracting needs the invariant [RSN] (NoPanicU23.v: the worker
+    named by a Retracting state is connected and in single-node mode), which holds in reachable
+    states once the scheduler's answers satisfy [sched_retract_ok] (the repair of finding F28,
+    NoPanicU26.v); without it site 102 is reachable (NoPanicU21.v). *)
+From HQ Require Import Base.Prelude Cluster.Types Cluster.Core Cluster.Reactor Cluster.Worker Cluster.Server Cluster.Sys Cluster.Monitors Cluster.RejHyp Cluster.ProofsJob Cluster.ProofsMore Cluster.ProofsTerminal Cluster.ProofsStep Cluster.ProofsFinal Cluster.BijBase Cluster.BijCore Cluster.BijHq Cluster.BijSt Cluster.BijReact Cluster.BijFinal Cluster.InvWBase Cluster.InvWView Cluster.InvWCore Cluster.InvWReact Cluster.InvWReact2 Cluster.InvWReact3 Cluster.InvWServer Cluster.InvWStep Cluster.InvQBase Cluster.InvQTake Cluster.InvQInv Cluster.InvQReact Cluster.InvQReact2 Cluster.InvQReact3 Cluster.InvDBase Cluster.InvDSpec Cluster.InvDRem Cluster.InvDReact Cluster.InvBundle Cluster.InvProcsDef Cluster.NoPanicC1 Cluster.NoPanicC2 Cluster.NoPanicC3 Cluster.NoPanicC4 Cluster.InvWX1 Cluster.InvWX2 Cluster.InvWX3 Cluster.NoPanicL0 Cluster.NoPanicL1 Cluster.NoPanicL2 Cluster.NoPanicL3 Cluster.NoPanicL4 Cluster.NoPanicU0 Cluster.NoPanicU1 Cluster.NoPanicU6 Cluster.NoPanicU8 Cluster.NoPanicU9 Cluster.NoPanicU10 Cluster.NoPanicU11 Cluster.NoPanicU12 Cluster.NoPanicU13 Cluster.NoPanicU23.
 From Coq Require Import ZArith Lia Sorting.Sorted.
 Local Open Scope N_scope.
 
@@ -117,10 +118,6 @@ Proof.
 Qed.
 
 (** * [task_running] *)
-Definition RSN (c : core) : Prop :=
-  forall x t w, find_task (c_tasks c) x = Some t -> t_state t = Retracting w ->
-    exists wk a p f, find_worker (c_workers c) w = Some wk /\ w_assign wk = Sn a p f.
-
 Lemma LI_active s id t : LI s -> find_task (c_tasks (core_of s)) id = Some t -> active s id.
 Proof. intros HL Hf. apply (cb_b _ (li_cb _ HL)). apply find_task_present. eauto. Qed.
 
@@ -177,7 +174,7 @@ Proof.
     destruct (q_remove_tot q id (t_prio t) Hwf (or_intror (placed_prefill_at _ _ _ Hp))) as (q' & ->). cbn [bind]. apply Hstart. reflexivity.
   - (* Retracting *) assert (E : w1 = w) by (destruct Hcase as [X|[X|[X|(ws0 & X)]]]; inversion X; auto). subst w1.
     rewrite N.eqb_refl. cbn [negb].
-    destruct (HR id t w Ef Est) as (wk & a & p & f & Hw & Ea).
+    destruct (HR t w (InvWX1.find_in _ _ _ Ef) Est) as (wk & Hw & a & p & f & Ea).
     change (core_of (ask_scheduling s)) with (with_flag c true).
     assert (Htr : exists c1 wk1 a1 p1 f1, try_remove_redirection (with_flag c true) t = Ok c1 /\
                     find_worker (c_workers c1) w = Some wk1 /\ w_assign wk1 = Sn a1 p1 f1 /\ tid_mem id a1 = false).
@@ -208,4 +205,62 @@ Proof.
     unfold insert_sn_task. rewrite Ea1, Hna1. cbn [bind]. apply Hstart. reflexivity.
   - (* RunningMN *) assert (E : exists ws0, ws = w :: ws0) by (destruct Hcase as [X|[X|[X|(ws0 & X)]]]; inversion X; eauto). destruct E as (ws0 & ->).
     rewrite N.eqb_refl. cbn [bind]. apply Hstart. reflexivity.
+Qed.
+
+(** * Requeueing a released task, [task_reject] *)
+Lemma requeue_tot s t c1 :
+  WI (upd_task c1 (with_state t (Waiting 0))) -> QI none [] c1 -> find_task (c_tasks c1) (t_id t) = Some t ->
+  (forall w, t_state t <> Prefilled w) ->
+  (forall w, find_worker (c_workers c1) w <> None -> has_proc s w) ->
+  exists s', (do (qs, ret) <- add_ready_task (c_queues c1) (with_state t (Waiting 0));
+              do s'' <- process_retracted (st_core s (with_queues (upd_task c1 (with_state t (Waiting 0))) qs)) ret;
+              Ok (s'', true)) = Ok (s', true).
+Proof.
+  intros HW V Ef Hnp Hpw.
+  destruct (add_ready_task_tot (c_queues c1) (with_state t (Waiting 0))) as (qs & ret & qs1 & Ha & Hdis).
+  { cbn [t_rq with_state]. exact (qv_rq _ _ _ _ _ _ V _ _ Ef). }
+  rewrite Ha. cbn [bind]. cbn [t_prio with_state] in Hdis.
+  destruct (dispose_ret_prefilled [] c1 _ _ _ V Hdis) as (Hnd & Hp).
+  destruct (process_retracted_tot (st_core s (with_queues (upd_task c1 (with_state t (Waiting 0))) qs)) ret) as (s1 & ->).
+  - exact HW.
+  - intros w Hw. apply Hpw. exact Hw.
+  - exact Hnd.
+  - intros x Hx. destruct (Hp x Hx) as (_ & tx & wx & Hfx & Hsx). exists tx, wx. split; [|exact Hsx].
+    cbn [core_of st_core with_core s_core fst c_tasks with_queues upd_task with_tasks]. rewrite BijBase.find_set_task. cbn [t_id with_state].
+    destruct (tid_eqb x (t_id t)) eqn:E; [|exact Hfx]. apply NoPanicU1.tid_eqb_eq in E. subst x. rewrite Ef in Hfx. inversion Hfx; subst tx.
+    exfalso. exact (Hnp _ Hsx).
+  - cbn [bind]. eauto.
+Qed.
+
+Lemma task_reject_tot s w id rv t : LI s -> find_task (c_tasks (core_of s)) id = Some t -> t_state t = Assigned w rv ->
+  exists r, task_reject s w id (Some rv) = Ok r.
+Proof.
+  intros HL Ef Est. unfold task_reject. cbv zeta. set (c := core_of s) in *. rewrite Ef.
+  pose proof (li_wi _ HL) as HW. pose proof (li_qi _ HL) as V. fold c in HW, V.
+  destruct (BijBase.find_task_some _ _ _ Ef) as [_ Hid].
+  destruct (WIX_A _ _ id t w HW eq_refl Ef) as (wk & a & p & f & Hw & Ea & Hm); [rewrite Est; reflexivity|].
+  rewrite (get_worker_ok _ _ _ Hw). cbn [bind].
+  destruct (InvWBase.find_worker_some _ _ _ Hw) as [_ Hwi].
+  match goal with |- context [upd_worker c ?k] => set (wk1 := k) in * end.
+  assert (Hk1 : w_id wk1 = w /\ w_assign wk1 = w_assign wk).
+  { subst wk1. destruct (nn_mem _ _); cbn; auto. }
+  destruct Hk1 as [Hi1 Ha1].
+  assert (W0 : WI (upd_worker c wk1)) by (eapply C_wsame; [exact HW | exact Hw | exact Hi1 | exact Ha1]).
+  assert (Hw0 : find_worker (c_workers (upd_worker c wk1)) w = Some wk1).
+  { cbn [c_workers upd_worker with_workers]. rewrite find_set_worker, Hi1, N.eqb_refl. reflexivity. }
+  destruct (LI_get_rq s id t HL Ef) as (rq & Hrq). fold c in Hrq. rewrite Hrq. cbn [bind].
+  rewrite Est. rewrite N.eqb_refl. cbn [negb]. rewrite N.eqb_refl.
+  destruct (remove_sn_task_tot wk1 id (rq_res rq) a p f) as (wk' & Hrm & Hwi'); [rewrite Ha1; exact Ea | exact Hm|].
+  rewrite Hrm. cbn [bind].
+  assert (Hp : pl (t_state t) = PA w) by (rewrite Est; reflexivity).
+  pose proof (C_relA InvWCore.x0 _ W0 id t w wk1 wk' (rq_res rq) eq_refl Ef Hp Hw0 Hrm) as W1.
+  destruct (requeue_tot s t (upd_worker (upd_worker c wk1) wk')) as (s' & ->).
+  - exact (C_show _ _ W1 InvWCore.x0 id (with_state t (Waiting 0)) ltac:(xs) ltac:(xs) Hid (or_introl eq_refl)).
+  - exact V.
+  - rewrite Hid. exact Ef.
+  - intros w0. rewrite Est. discriminate.
+  - intros w0 Hw0'. apply (PI_PWc _ (li_pi _ HL)). fold c.
+    cbn [c_workers upd_worker with_workers] in Hw0'. rewrite !find_set_worker in Hw0'.
+    rewrite Hwi', Hi1 in Hw0'. destruct (N.eqb w0 w) eqn:E; [apply N.eqb_eq in E; subst w0; rewrite Hw; discriminate | exact Hw0'].
+  - eauto.
 Qed.
